@@ -6,7 +6,7 @@ from harness.c01.world import qual
 QUERY_KINDS = ["QueryBuilder", "MySQLQueryBuilder", "VerticaQueryBuilder", "OracleQueryBuilder", "PostgreSQLQueryBuilder",
                "RedShiftQueryBuilder", "MSSQLQueryBuilder", "ClickHouseQueryBuilder", "SQLLiteQueryBuilder",
                "SnowflakeQueryBuilder"]
-THEMES = [("query", 30), ("setop", 7), ("create", 7), ("createindex", 3), ("drop", 3), ("loadcopy", 2), ("case", 6),
+THEMES = [("shared", 10), ("query", 26), ("setop", 7), ("create", 7), ("createindex", 3), ("drop", 3), ("loadcopy", 2), ("case", 6),
           ("function", 9), ("table", 4), ("terms", 6), ("joiner", 10), ("mixed", 8), ("twin", 5)]
 
 NAMES = ["a", "b", "c", "x", "y", "id"]
@@ -359,7 +359,14 @@ def generic_args(c, o, m):
 
 
 def start_objects(rng, theme):
-    new = [["new", "Table:" + t] for t in rng.sample(["t1", "t2", "t3", "s.t4"], rng.randint(1, 3))]
+    new = [["new", "Table:" + t] for t in rng.sample(["t1", "t2", "t3", "s.t4", "a.t1", "b.t2"], rng.randint(1, 3))]
+    if theme == "shared":
+        # argument objects shared between statements: one table and its same-name twin in another schema, two sub-queries
+        # that several statements use as FROM and as JOIN items
+        new = [["new", "Table:t1"], ["new", "Table:a.t1"]] + [x for x in new if x[1] not in ("Table:t1", "Table:a.t1")][:1]
+        k = rng.choice(QUERY_KINDS)
+        new += [["new", k], ["new", rng.choice([k, rng.choice(QUERY_KINDS)])], ["new", k], ["new", k]]
+        return new
     q = lambda: rng.choice(QUERY_KINDS)
     if theme in ("query", "joiner", "setop"):
         new += [["new", q()]]
@@ -417,8 +424,10 @@ def gen_history(rng, tab, theme, ncalls):
         c.exclude = {0}          # never pass the one mutable object to itself (cyclic statement)
     from pypika.queries import QueryBuilder
     # seed every fresh query builder with FROM + SELECT most of the time
-    for i in list(c.queries()):
-        if rng.random() < 0.8:
+    for k_, i in enumerate(list(c.queries())):
+        if theme == "shared" and k_ >= 2:
+            continue
+        if rng.random() < 0.8 or theme == "shared":
             cur = i
             for m in SEED_CALLS:
                 ga = gen_args(c, "query", m, r.U.objs[cur])
@@ -430,6 +439,14 @@ def gen_history(rng, tab, theme, ncalls):
     twin = theme == "twin"
     last = None
     repeats = []
+    if theme == "shared":
+        # the first two seeded queries are the shared sub-queries; the other two statements select FROM one of them each
+        qs = c.selecting()
+        fresh = [i for i in c.queries() if i not in qs]
+        for stmt, sub in zip(fresh[:2], qs[:2]):
+            rec = push(["call", stmt, "from_", [REF(sub)], {}])
+            if rec.get("kind") == "call" and rec.get("exc") is None:
+                push(["call", rec["ret"], "select", [S(c.name())], {}])
     for _ in range(ncalls):
         cands = [i for i in r.live() if qual(r.U.objs[i]) in tab]
         if not cands:
@@ -470,8 +487,8 @@ def gen_history(rng, tab, theme, ncalls):
                 meths = [x for x in meths if x != "join"]           # a chain completes its join at once: q.join(x).on(...)
             elif rng.random() < 0.5:
                 meths = [x for x in meths if ">" not in x]           # keep the four join>... rows from crowding the rest
-            if theme == "joiner" and rng.random() < 0.5:
-                meths = [x for x in meths if x.startswith("join")]
+            if theme in ("joiner", "shared") and rng.random() < (0.5 if theme == "joiner" else 0.7):
+                meths = [x for x in meths if x.startswith("join") or (theme == "shared" and x == "from_")]
         ga = None
         for _try in range(4):
             m = rng.choice(meths)
